@@ -39,7 +39,9 @@ type c19Case struct {
 
 var c19Msgs = map[string]string{"A": `{"a":1}`, "B": `{"b":1}`, "C": `{"c":1}`, "noise": `this is not json`,
 	// T2 matches pattern T in two ways (?t = x, ?t = y), T1 in one
-	"T1": `{"tags":["x"]}`, "T2": `{"tags":["x","y"]}`}
+	"T1": `{"tags":["x"]}`, "T2": `{"tags":["x","y"]}`,
+	// long lines (beyond any reader's default buffer): a message is a message whatever its length
+	"LA": `{"a":1,"pad":"` + strings.Repeat("x", 6000) + `"}`, "LB": `{"b":1,"pad":"` + strings.Repeat("y", 9000) + `"}`}
 var c19Pats = map[string]interface{}{"A": M{"a": "?x"}, "B": M{"b": "?y"}, "T": M{"tags": []interface{}{"?t"}}}
 
 // refPass: the pass conditions, with the most permissive consumption (a step ends at the earliest
@@ -212,7 +214,7 @@ func C19(c *vh.Ctx) {
 	maxSet, maxStream := c.Pick(2, 3), c.Pick(3, 4)
 	c.Bound("output_set_max", maxSet)
 	c.Bound("stream_max", maxStream)
-	c.Rule("sessions of one step with every output set (multiset) of up to the bound over {pattern A, pattern B} x {expected, inverted} x guard {none, accept, reject}, a second family with a pattern that matches one message in several ways (an array variable) with guards that accept all / one of the ways, and two-step sessions over a reduced set list; every stream up to the bound over {A, B, C, a non-JSON noise line} including repetitions; the tool drives a scripted subprocess that prints the stream; oracle: the tool may pass only if the reference pass conditions hold (most permissive consumption). Cases the reference fails run with a short timeout (which can only turn pass into fail). non-trivial = reference says pass.")
+	c.Rule("sessions of one step with every output set (multiset) of up to the bound over {pattern A, pattern B} x {expected, inverted} x guard {none, accept, reject}, a second family with a pattern that matches one message in several ways (an array variable) with guards that accept all / one of the ways, a third family with emitted lines of 6 and 9 kilobytes (longer than a default read buffer; the whole stream stays below the pipe buffer, because the tool does not drain the output of a subprocess it has stopped listening to), and two-step sessions over a reduced set list; every stream up to the bound over {A, B, C, a non-JSON noise line} including repetitions; the tool drives a scripted subprocess that prints the stream; oracle: the tool may pass only if the reference pass conditions hold (most permissive consumption). Cases the reference fails run with a short timeout (which can only turn pass into fail). non-trivial = reference says pass.")
 	kinds := []expOut{}
 	for _, p := range []string{"A", "B"} {
 		for _, inv := range []bool{false, true} {
@@ -293,6 +295,37 @@ func C19(c *vh.Ctx) {
 	recMulti(nil)
 	for _, set := range multiSets {
 		for _, st := range multiStreams {
+			idx++
+			if !c.Mine(idx) || c.Expired() {
+				continue
+			}
+			one(c19Case{Steps: [][]expOut{set}, Stream: st})
+		}
+	}
+	// long lines
+	longKinds := []expOut{{Pat: "A"}, {Pat: "A", Inverted: true}, {Pat: "B"}, {Pat: "B", Inverted: true}}
+	var longSets [][]expOut
+	for i, k1 := range longKinds {
+		longSets = append(longSets, []expOut{k1})
+		for _, k2 := range longKinds[i+1:] {
+			longSets = append(longSets, []expOut{k1, k2})
+		}
+	}
+	var longStreams [][]string
+	syms := []string{"LA", "LB", "A", "B"}
+	for _, s1 := range syms {
+		longStreams = append(longStreams, []string{s1})
+		for _, s2 := range syms {
+			longStreams = append(longStreams, []string{s1, s2})
+			if !c.Quick() {
+				for _, s3 := range syms {
+					longStreams = append(longStreams, []string{s1, s2, s3})
+				}
+			}
+		}
+	}
+	for _, set := range longSets {
+		for _, st := range longStreams {
 			idx++
 			if !c.Mine(idx) || c.Expired() {
 				continue
